@@ -49,14 +49,15 @@ type Solver struct {
 	in      io.WriteCloser
 	out     *bufio.Reader
 	ctx     *sym.Ctx
-	defined map[int]int // term id -> level at which it was defined
-	levels  [][]int     // ids defined per level
+	defined map[int]int // term id -> 1 when named in the solver
+	assume  [][]*sym.Term // assumption literals per level (see Check)
 	declVar map[int]bool
-	varLvl  [][]int
 	Stats   Stats
 	Log     io.Writer // optional transcript
 	buf     strings.Builder
 	timeoutMs int
+	SlowMs    int
+	Tag       string
 }
 
 // Kinds of solver command lines.
@@ -88,7 +89,7 @@ func New(name string, ctx *sym.Ctx, timeoutMs int) (*Solver, error) {
 		return nil, err
 	}
 	s := &Solver{Name: name, cmd: cmd, in: in, out: bufio.NewReaderSize(outp, 1<<16), ctx: ctx,
-		defined: map[int]int{}, levels: [][]int{nil}, declVar: map[int]bool{}, varLvl: [][]int{nil}, timeoutMs: timeoutMs}
+		defined: map[int]int{}, assume: [][]*sym.Term{nil}, declVar: map[int]bool{}, timeoutMs: timeoutMs}
 	s.send("(set-option :produce-models true)\n")
 	// QF_BV makes z3 use its incremental SAT-based bit-vector solver (measured
 	// 4-5x faster than the default incremental core on these queries). Only
@@ -129,28 +130,21 @@ func (s *Solver) flush() {
 	s.buf.Reset()
 }
 
-func (s *Solver) Level() int { return len(s.levels) - 1 }
+// Scoping is done with assumption literals instead of (push)/(pop): every
+// term is named once, globally, by a constant and a defining equation (always
+// true, so harmless for other paths); the assertions of the current scopes are
+// passed to (check-sat-assuming). Measured on a header-stage run: push/pop
+// re-sent 50 MB of definitions for 994 queries; with assumptions each term is
+// sent once.
+func (s *Solver) Level() int { return len(s.assume) - 1 }
 
-func (s *Solver) Push() {
-	s.send("(push 1)\n")
-	s.levels = append(s.levels, nil)
-	s.varLvl = append(s.varLvl, nil)
-}
+func (s *Solver) Push() { s.assume = append(s.assume, nil) }
 
 func (s *Solver) Pop() {
-	if len(s.levels) <= 1 {
+	if len(s.assume) <= 1 {
 		panic("smt: pop at level 0")
 	}
-	s.send("(pop 1)\n")
-	top := len(s.levels) - 1
-	for _, id := range s.levels[top] {
-		delete(s.defined, id)
-	}
-	for _, id := range s.varLvl[top] {
-		delete(s.declVar, id)
-	}
-	s.levels = s.levels[:top]
-	s.varLvl = s.varLvl[:top]
+	s.assume = s.assume[:len(s.assume)-1]
 }
 
 // PopTo pops until the given level is current.
@@ -158,6 +152,14 @@ func (s *Solver) PopTo(level int) {
 	for s.Level() > level {
 		s.Pop()
 	}
+}
+
+// Reset forgets everything (new harness run).
+func (s *Solver) Reset() {
+	s.send("(reset)\n(set-option :produce-models true)\n(set-logic QF_BV)\n")
+	s.defined = map[int]int{}
+	s.declVar = map[int]bool{}
+	s.assume = [][]*sym.Term{nil}
 }
 
 // define makes sure t (and everything below) is known to the solver.
@@ -178,8 +180,6 @@ func (s *Solver) define(t *sym.Term) {
 		if cur.Op == sym.OpVar {
 			if !s.declVar[cur.ID] {
 				s.declVar[cur.ID] = true
-				top := len(s.varLvl) - 1
-				s.varLvl[top] = append(s.varLvl[top], cur.ID)
 				s.send(fmt.Sprintf("(declare-const %s %s)\n", sym.Ref(cur), sym.SortName(cur.W)))
 			}
 			stack = stack[:len(stack)-1]
@@ -195,10 +195,11 @@ func (s *Solver) define(t *sym.Term) {
 			stack = append(stack, fr{a, 0})
 			continue
 		}
-		top := len(s.levels) - 1
-		s.defined[cur.ID] = top
-		s.levels[top] = append(s.levels[top], cur.ID)
-		s.send(fmt.Sprintf("(define-fun %s () %s %s)\n", sym.Ref(cur), sym.SortName(cur.W), sym.Body(cur)))
+		s.defined[cur.ID] = 1
+		// named by a constant plus a defining equation: z3 expands zero-ary
+		// define-fun by substitution at parse time, which is exponential on a
+		// DAG (measured: 11 s parse for a 796-line query on z3 4.8.12).
+		s.send(fmt.Sprintf("(declare-const %s %s)\n(assert (= %s %s))\n", sym.Ref(cur), sym.SortName(cur.W), sym.Ref(cur), sym.Body(cur)))
 		stack = stack[:len(stack)-1]
 	}
 }
@@ -208,7 +209,8 @@ func (s *Solver) Assert(t *sym.Term) {
 		panic("smt: assert non-bool")
 	}
 	s.define(t)
-	s.send(fmt.Sprintf("(assert %s)\n", sym.Ref(t)))
+	top := len(s.assume) - 1
+	s.assume[top] = append(s.assume[top], t)
 }
 
 func (s *Solver) readLine() (string, error) {
@@ -218,15 +220,41 @@ func (s *Solver) readLine() (string, error) {
 
 // Check runs (check-sat).
 func (s *Solver) Check() Result {
-	s.send("(check-sat)\n")
+	var sb strings.Builder
+	sb.WriteString("(check-sat-assuming (")
+	seen := map[int]bool{}
+	for _, lv := range s.assume {
+		for _, t := range lv {
+			if t.IsTrue() || seen[t.ID] {
+				continue
+			}
+			seen[t.ID] = true
+			if t.IsFalse() {
+				s.Stats.Queries++
+				s.Stats.Unsat++
+				return Unsat
+			}
+			if t.Op == sym.OpNot {
+				sb.WriteString("(not " + sym.Ref(t.Args[0]) + ") ")
+			} else {
+				sb.WriteString(sym.Ref(t) + " ")
+			}
+		}
+	}
+	sb.WriteString("))\n")
+	s.send(sb.String())
 	s.flush()
 	t0 := time.Now()
 	line, err := s.readLine()
 	for err == nil && line == "" {
 		line, err = s.readLine()
 	}
-	s.Stats.SolveTime += time.Since(t0)
+	el := time.Since(t0)
+	s.Stats.SolveTime += el
 	s.Stats.Queries++
+	if s.SlowMs > 0 && el > time.Duration(s.SlowMs)*time.Millisecond {
+		fmt.Fprintf(os.Stderr, "slow query %v: %s -> %s\n", el, s.Tag, line)
+	}
 	if err != nil {
 		s.Stats.Errors = append(s.Stats.Errors, "read: "+err.Error())
 		s.Stats.Unknown++
